@@ -86,4 +86,6 @@ def run(ctx):
     if ctx['tier'] == 'thorough':
         from vpcheck import run_witness
         run_witness(rep, 'W11')
+    import thrift_pairs as tp_z
+    tp_z.zero_copy_keeps_prefix(rep, 'R11.z', prog, cg, names=('binary_unsafe',))
     return rep
